@@ -443,7 +443,14 @@ fn run_iter<T, I: Iterator<Item = T>>(mut it: I, ops: &str, show: impl Fn(T) -> 
                 let (lo, hi) = it.size_hint();
                 Ok(format!("({},{})", lo, match hi { Some(h) => h.to_string(), None => "inf".into() }))
             }
-            _ => Err(format!("bad iter op {op}")),
+            _ => match op.strip_prefix('t').and_then(|k| k.parse::<usize>().ok()) {
+                // `Iterator::nth(k)` (what `skip` and `step_by` are built on)
+                Some(k) => Ok(match it.nth(k) {
+                    Some(v) => format!("some {}", show(v)),
+                    None => "none".into(),
+                }),
+                None => Err(format!("bad iter op {op}")),
+            },
         }));
         match r {
             Ok(Ok(s)) => out.push(s),
